@@ -16,12 +16,17 @@ def _valid(f):
 
 
 class FrameSrc:
-    def __init__(self, pattern, tag):
+    def __init__(self, pattern, tag, hook_at=None, hook=None):
         self.p = pattern
         self.i = 0
         self.tag = tag
+        self.hook_at = hook_at
+        self.hook = hook
 
     def read(self):
+        if self.hook is not None and self.i == self.hook_at:
+            h, self.hook = self.hook, None
+            h()     # something happens while the tokenizer is inside read()
         if self.i >= len(self.p):
             return None
         f = (self.tag * 1000 + self.i, self.p[self.i])
@@ -98,7 +103,11 @@ class Engine:
                              # finalise a suspended earlier generator after
                              # this many tokens of this use (0 = never)
                              "finalise_kept_after": T.draw(4),
-                             "finalise_how": T.draw(2)})
+                             "finalise_how": T.draw(2),
+                             # ... or while the tokenizer is inside the
+                             # read of this frame (-1 = never)
+                             "finalise_at_read": T.draw(n + 2) - 1
+                             if T.draw(3) == 0 else -1})
             sc["uses"] = uses
             sc["patterns"] = [C.gen_pattern(T, u["n"]) for u in uses]
         else:
@@ -171,6 +180,22 @@ class Engine:
                     or mode == "gen_deferred" else mode
             out["steps"] += 1
             src = FrameSrc(pat, ui)
+            far = u.get("finalise_at_read", -1)
+            if far >= 0 and keep and mode in ("list", "callback",
+                                              "gen_full"):
+                def _finalise_now(_how=u.get("finalise_how")):
+                    # an abandoned generator is closed / collected while a
+                    # later run is in the middle of reading a frame
+                    if not keep:
+                        return
+                    old = keep.pop(0)
+                    if _how:
+                        old.close()
+                    del old
+                    out["faults"]["finalise_suspended_inside_read"] = \
+                        out["faults"].get(
+                            "finalise_suspended_inside_read", 0) + 1
+                src = FrameSrc(pat, ui, hook_at=far, hook=_finalise_now)
             if mode == "gen_deferred":
                 # the generator is requested now but consumed only after the
                 # next use of the tokenizer has completed
@@ -331,24 +356,30 @@ class Engine:
             return split(data2, sr=sr, sw=sw, ch=ch, analysis_window=aw,
                          **kw)
         want2 = key(do2())
-        g1, g2 = do(), do2()
-        acc1, acc2 = [], []
-        live1 = live2 = True
-        turn = sc["nwin2"] % 2
-        while live1 or live2:
+        g1, g2, g3 = do(), do2(), do()   # g1 and g3: the same input object
+        gens = [g1, g2, g3]
+        accs = [[], [], []]
+        live = [True, True, True]
+        turn = sc["nwin2"] % 3
+        while any(live):
             out["steps"] += 1
-            if (turn % 2 == 0 and live1) or not live2:
-                try:
-                    acc1.append(next(g1))
-                except StopIteration:
-                    live1 = False
-            else:
-                try:
-                    acc2.append(next(g2))
-                except StopIteration:
-                    live2 = False
+            k_ = turn % 3
             turn += 1
+            if not live[k_]:
+                continue
+            try:
+                accs[k_].append(next(gens[k_]))
+            except StopIteration:
+                live[k_] = False
+        acc1, acc2, acc3 = accs
         out["faults"]["interleaved_generators"] = 1
+        if key(acc3) != want:
+            return self._V("C20.2", "two split() generators over the SAME "
+                           "input object consumed in lock step interfere: "
+                           "the second gives %r, alone %r" % (
+                               [(a, b) for a, b, _ in key(acc3)],
+                               [(a, b) for a, b, _ in want]),
+                           "C20.2:split_same_object_interleaved")
         if key(acc1) != want or key(acc2) != want2:
             return self._V("C20.2", "two split() generators with equal "
                            "parameters consumed in lock step interfere: got "
